@@ -229,7 +229,8 @@ impl TcpStreamInProgress {
     pub fn try_connect(self) -> Result<TcpTryConnect> {
         match rusl::network::connect_inet(self.0 .0, &self.1) {
             Ok(()) => {}
-            Err(e) if matches!(e.code, Some(Errno::EINPROGRESS)) => {
+            // A repeated connect on a socket that's still connecting gives `EALREADY`
+            Err(e) if matches!(e.code, Some(Errno::EINPROGRESS | Errno::EALREADY)) => {
                 return Ok(TcpTryConnect::InProgress(self));
             }
             Err(e) => {
@@ -249,7 +250,16 @@ impl TcpStreamInProgress {
             Errno::EINPROGRESS,
             PollEvents::POLLOUT,
             None,
-            |sock| rusl::network::connect_inet(sock, &self.1),
+            |sock| {
+                // A repeated connect on a socket that's still connecting gives `EALREADY`,
+                // that's the same "not ready yet" as the first connect's `EINPROGRESS`
+                rusl::network::connect_inet(sock, &self.1).map_err(|mut e| {
+                    if e.code == Some(Errno::EALREADY) {
+                        e.code = Some(Errno::EINPROGRESS);
+                    }
+                    e
+                })
+            },
         )?;
         let Self(o, _addr) = self;
         Ok(TcpStream(o))
